@@ -8,6 +8,9 @@ From E57 Require Import Base.Prelude Model.Device Model.PagedWriter Model.Record
   Model.QueueReader Model.PcWriter Model.FileBin Spec.BitSpec Spec.PageSpec Spec.FormatSpec Spec.FileSpec
   Proofs.PagedWriterProofs Proofs.FileRtWriter Proofs.SpecSection Proofs.SpecDecode
   Proofs.SpecWriter Proofs.SpecWriterOk Proofs.SpecC02.
+From Coq Require Import Permutation.
+From E57 Require Import Model.Meta Model.MetaFile Model.XmlTree Model.XmlParse Model.XmlExtract
+  Spec.FileSpecXml Spec.XmlRender Spec.MetaTree Proofs.SpecXml Proofs.SpecXmlExample.
 
 (** The main statement.  The ONLY hypothesis about the call sequence is that the writer
     returned Ok (any list of blobs and point clouds, any prototypes, any points - valid or
@@ -30,7 +33,7 @@ From E57 Require Import Base.Prelude Model.Device Model.PagedWriter Model.Record
       written and the file could not be opened: [C02_bounds_order_needed] is that run).
     - [xml <> []]: the decoder demands an XML text (the crate never writes an empty one).
     - [len f < 2^64]: header fields, section lengths and offsets are u64. *)
-Theorem C02_wellformed : forall (is : list item) (xml : list N) (outs : list item_out) (s : pw)
+Theorem C02_wellformed : forall (is : list FileBin.item) (xml : list N) (outs : list item_out) (s : pw)
     (dx : list N -> list descriptor),
   forallb item_typed is = true ->
   xml <> [] ->
@@ -44,7 +47,7 @@ Proof. exact writer_ok_file_wellformed. Qed.
 
 (** How it is proved, part 1: the writer's file IS a file of the independent encoder, for the
     layout the writer chose (sections in call order, no extra padding, XML last). *)
-Theorem C02_writer_file_is_spec : forall (is : list item) (xml : list N) (outs : list item_out) (s : pw),
+Theorem C02_writer_file_is_spec : forall (is : list FileBin.item) (xml : list N) (outs : list item_out) (s : pw),
   forallb item_wf is = true ->
   wrun (file_prog is xml) pw0 = (s, Ok outs) ->
   exists fl : file_layout,
@@ -77,7 +80,7 @@ Theorem C02_section_decoder_inverts_encoder : forall proto points lay off rest,
 Proof. exact decode_section_encode. Qed.
 
 (** Part 4: "returned Ok" implies the conditions under which part 1 is proved. *)
-Theorem C02_ok_implies_wf : forall (is : list item) (xml : list N) (l l' : lstream) (outs : list item_out),
+Theorem C02_ok_implies_wf : forall (is : list FileBin.item) (xml : list N) (l l' : lstream) (outs : list item_out),
   forallb item_typed is = true ->
   wrun_spec (file_prog is xml) l = (l', Ok outs) -> forallb item_wf is = true.
 Proof. exact file_prog_ok_wf. Qed.
@@ -102,6 +105,47 @@ Theorem C02_instance :
   = Some (mkDecoded C02Instance.xml (map item_content C02Instance.items)).
 Proof. exact writer_ok_file_wellformed_instance. Qed.
 
+(** The XML plugged in ([Spec/FileSpecXml.v]): the descriptors are what parsing the XML text of
+    the file ([xml_parse]: well formed, every prefix declared) and extracting its metadata
+    ([extract_all]) yield; [spec_wellformed_xml] demands that both succeed.  The XML text is ANY
+    rendering [c] of the tree of a metadata value [m].  Named hypotheses - the statements the XML
+    slices prove in general, composed here: [Hwf] the tree of [m] is renderable, [Hext] the
+    reader's extractors return [m'] on it, [Hdesc] that metadata lists exactly the sections the
+    binary writer published (the XML lists point clouds first and image blobs second, the file
+    interleaves them: a permutation; [rest] = sections the XML does not mention, i.e. blobs
+    added with [add_blob] that no image refers to).  [pf64], [pf32], [fdiv] are the float oracles of the
+    extractors (the descriptors contain no floats).  Each extracted descriptor decodes to the
+    content of the item that published it. *)
+Theorem C02_wellformed_xml : forall (pf64 pf32 : xstr -> option N) (fdiv : N -> Z -> N)
+    (is : list FileBin.item) (outs : list item_out) (s : pw) (m m' : file_meta) (c : render_choices)
+    (rest : list descriptor),
+  forallb item_typed is = true ->
+  let xml := render c (tree_of m) in
+  forall (Hwf : wf_doc (tree_of m) = true)
+         (Hext : extract_all pf64 pf32 fdiv (tree_of m) = Ok m')
+         (Hdesc : Permutation (meta_descriptors m' ++ rest) (item_descriptors is outs)),
+  wrun (file_prog is xml) pw0 = (s, Ok outs) ->
+  let f := d_bytes (pw_dev (fst (pw_flush s))) in
+  len f < 2 ^ 64 ->
+  spec_wellformed_xml pf64 pf32 fdiv f = true /\
+  exists cs,
+    spec_decode_file_xml pf64 pf32 fdiv f = Some (m', mkDecoded xml cs) /\
+    length cs = length (meta_descriptors m') /\
+    forall d cnt, In (d, cnt) (combine (meta_descriptors m') cs) ->
+                  In (d, cnt) (combine (item_descriptors is outs) (map item_content is)).
+Proof. exact writer_file_wellformed_xml. Qed.
+
+(** Non-vacuity: an image blob of 1019 bytes and a point cloud, the writer's own rendering. *)
+Theorem C02_wellformed_xml_instance :
+  spec_wellformed_xml XmlInstance.pf XmlInstance.pf XmlInstance.fd (XmlInstance.file writer_choices) = true /\
+  exists cs,
+    spec_decode_file_xml XmlInstance.pf XmlInstance.pf XmlInstance.fd (XmlInstance.file writer_choices)
+    = Some (XmlInstance.meta', mkDecoded (XmlInstance.xml writer_choices) cs) /\
+    length cs = length (meta_descriptors XmlInstance.meta') /\
+    forall d cnt, In (d, cnt) (combine (meta_descriptors XmlInstance.meta') cs) ->
+                  In (d, cnt) (combine (item_descriptors XmlInstance.items XmlInstance.outs) (map item_content XmlInstance.items)).
+Proof. exact writer_file_wellformed_xml_instance. Qed.
+
 Print Assumptions C02_wellformed.
 Print Assumptions C02_writer_file_is_spec.
 Print Assumptions C02_decoder_inverts_encoder.
@@ -110,3 +154,5 @@ Print Assumptions C02_ok_implies_wf.
 Print Assumptions C02_float_typing_needed.
 Print Assumptions C02_bounds_order_needed.
 Print Assumptions C02_instance.
+Print Assumptions C02_wellformed_xml.
+Print Assumptions C02_wellformed_xml_instance.
